@@ -156,7 +156,11 @@ func runCheck(id, tier string) int {
 		fmt.Fprintln(os.Stderr, err)
 		return 2
 	}
-	defer os.RemoveAll(work)
+	if os.Getenv("GVC_KEEP") == "" {
+		defer os.RemoveAll(work)
+	} else {
+		fmt.Fprintln(os.Stderr, "work dir:", work)
+	}
 	pc.WorkDir = work
 	p, err := loadProgram(repoDir, ps.Patterns, nil)
 	if err != nil {
@@ -282,6 +286,9 @@ func (pc *propCheck) report(t0 time.Time) int {
 	var samples []any
 	for _, o := range pc.Obls {
 		ok, reason := pc.classify(o)
+		if os.Getenv("GVC_VERBOSE") != "" && o.Result != nil {
+			fmt.Fprintf(os.Stderr, "%-8s %-7s %6.2fs %v %s\n", o.Result.Status, o.Result.Solver, o.Result.Time, ok, o.Name)
+		}
 		if o.Result != nil {
 			solverCount[o.Result.Solver]++
 			solverTime += o.Result.Time
